@@ -219,6 +219,51 @@ class Fn:
             self._defs = d
         return self._defs
 
+    def use_blocks(self):
+        """local -> set of blocks that read it (any mention outside the assigned place of a statement)"""
+        if getattr(self, "_uses", None) is None:
+            d = collections.defaultdict(set)
+
+            def scan(x, bi):
+                # operands are ["c"|"m", [loc, proj]]; places [loc, proj]; walk the JSON generically
+                if isinstance(x, list):
+                    if len(x) == 2 and isinstance(x[0], int) and isinstance(x[1], list):
+                        d[x[0]].add(bi)
+                        for e in x[1]:
+                            if isinstance(e, list) and e and e[0] == "i":
+                                d[e[1]].add(bi)
+                        return
+                    for y in x:
+                        scan(y, bi)
+            for bi, b in enumerate(self.blocks):
+                for st in b["s"]:
+                    if st[0] == "A":
+                        if st[1][1]:
+                            d[st[1][0]].add(bi)
+                        scan(st[2], bi)
+                t = b["t"]
+                if t[0] == "switch":
+                    scan(t[1], bi)
+                elif t[0] == "call":
+                    scan(t[2], bi)
+                    if t[3][1]:
+                        d[t[3][0]].add(bi)
+                elif t[0] == "assert":
+                    scan(t[1], bi)
+            self._uses = d
+            self._reach_cache = {}
+        return self._uses
+
+    def live_at(self, loc, b):
+        """may local `loc` still be read at or after block b?"""
+        ub = self.use_blocks().get(loc)
+        if not ub:
+            return False
+        rc = self._reach_cache.get(b)
+        if rc is None:
+            rc = self._reach_cache[b] = frozenset(self.reach_from([b]))
+        return not ub.isdisjoint(rc)
+
     def calls(self):
         for bi, b in enumerate(self.blocks):
             t = b["t"]
@@ -885,6 +930,56 @@ def guards_of(model, fn, site_block, mode="value", _thread=True):
                                 have.add(g2.b)
                                 extra.append(g2)
         out += extra
+        # the same for `?` / `match` on a Result local whose definitions are `Ok(..)` / `Err(..)` literals in different
+        # blocks (the return value of an inlined helper; `let r = if c { Err(..) } else { Ok(..) }`): the edge taken tells
+        # which definition ran, and the guards of that definition hold at the site
+        extra = []
+        have = {g.b for g in out}
+        for g in list(out):
+            r = g.root
+            if r[0] != "discr":
+                continue
+            want = None
+            src = None
+            if r[1][0] == "call" and re.search(r"as std::ops::Try>::branch$", r[1][1]) and not r[1][3]:
+                vs = discr_variants(model, g)
+                want = "Ok" if vs == {"Continue"} else ("Err" if vs == {"Break"} else None)
+                src = Prov(model, "alias").root(fn, Call(fn, r[1][2]).args[0])
+            elif r[1][0] == "local" and r[2] and r[2].endswith("result::Result") and not r[1][3]:
+                vs = discr_variants(model, g)
+                want = "Ok" if vs == {"Ok"} else ("Err" if vs == {"Err"} else None)
+                src = r[1]
+            if want is None or src is None or src[0] != "local" or src[3]:
+                continue
+            ds = _result_def_blocks(fn, src[1])
+            if not ds:
+                continue
+            hit = [bi for bi, v in ds if v == want]
+            if len(hit) == 1 and not fn.dominates(hit[0], site_block):
+                for g2 in guards_of(model, fn, hit[0], mode, _thread=False):
+                    if g2.b not in have:
+                        have.add(g2.b)
+                        extra.append(g2)
+        out += extra
+    return out
+
+
+def _result_def_blocks(fn, loc, depth=0):
+    """[(block, 'Ok'|'Err')] for a local whose every definition is a Result literal (or a copy of such a local), else None"""
+    out = []
+    for bi, si, kind, payload in fn.defs().get(loc, []):
+        if kind != "assign":
+            return None
+        rv = payload
+        if rv[0] == "agg" and rv[1].endswith("result::Result"):
+            out.append((bi, rv[2]))
+        elif rv[0] == "use" and rv[1][0] != "k" and not rv[1][1][1] and depth < 3:
+            sub = _result_def_blocks(fn, rv[1][1][0], depth + 1)
+            if sub is None:
+                return None
+            out += sub
+        else:
+            return None
     return out
 
 
